@@ -657,25 +657,36 @@ func checkGUID(c valCase) []vf.Finding {
 		}
 	}
 	for i := range refs {
-		in := c.Pad + recase(refs[i], c.Case) + c.Pad
-		// through the specific parser and through FromString
-		for k, parse := range []func(string) (*guid.GUID, error){func(s string) (*guid.GUID, error) { return fromFormat(s, i) }, guid.FromString} {
-			who := "guid.FromFormat" + fmtNames[i]
-			if k == 1 {
-				who = "guid.FromString(" + fmtNames[i] + ")"
-			}
-			pg, err := parse(in)
-			if err != nil || pg == nil {
-				fs = append(fs, vf.F(who, "valid-text-rejected", "%q: %v", in, err))
-				continue
-			}
-			if out := pg.ToBytes(); !bytes.Equal(out, raw) {
-				fs = append(fs, vf.F(who, "parsed-value-differs", "%q -> %x want %x", in, out, raw))
-				continue
-			}
-			for j := range refs {
-				if got := toFormat(pg, j); got != refs[j] {
-					fs = append(fs, vf.F(who, "format-pair-differs", "%q -> format %s %q want %q", in, fmtNames[j], got, refs[j]))
+		// The text of the format as it stands must be accepted. The same text with white space around it
+		// is not one of the five formats: a parser may trim it or refuse it, but if it accepts it the value
+		// must be the right one.
+		text := recase(refs[i], c.Case)
+		inputs := []string{text}
+		if c.Pad != "" {
+			inputs = append(inputs, c.Pad+text+c.Pad)
+		}
+		for _, in := range inputs {
+			// through the specific parser and through FromString
+			for k, parse := range []func(string) (*guid.GUID, error){func(s string) (*guid.GUID, error) { return fromFormat(s, i) }, guid.FromString} {
+				who := "guid.FromFormat" + fmtNames[i]
+				if k == 1 {
+					who = "guid.FromString(" + fmtNames[i] + ")"
+				}
+				pg, err := parse(in)
+				if err != nil || pg == nil {
+					if in == text {
+						fs = append(fs, vf.F(who, "valid-text-rejected", "%q: %v", in, err))
+					}
+					continue
+				}
+				if out := pg.ToBytes(); !bytes.Equal(out, raw) {
+					fs = append(fs, vf.F(who, "parsed-value-differs", "%q -> %x want %x", in, out, raw))
+					continue
+				}
+				for j := range refs {
+					if got := toFormat(pg, j); got != refs[j] {
+						fs = append(fs, vf.F(who, "format-pair-differs", "%q -> format %s %q want %q", in, fmtNames[j], got, refs[j]))
+					}
 				}
 			}
 		}
